@@ -443,3 +443,41 @@ var depConsts = strings.NewReplacer(
 	"call<(crypto.Hash).Size>(const:5)", "const:32",
 	"call<(crypto.Hash).Size>(const:7)", "const:64",
 )
+
+// onlyVia: every chain of in-module static calls that reaches g starts in, or
+// passes through, one of the functions in via (g itself may be in via). A
+// function with no in-module caller that is not in via - an exported entry
+// point, a method value taken, init - breaks the condition.
+func (p *Prog) onlyVia(g *ssa.Function, via map[*ssa.Function]bool) bool {
+	seen := map[*ssa.Function]bool{}
+	var up func(f *ssa.Function, depth int) bool
+	up = func(f *ssa.Function, depth int) bool {
+		for f.Parent() != nil {
+			f = f.Parent()
+		}
+		if via[f] {
+			return true
+		}
+		if seen[f] {
+			return true
+		}
+		seen[f] = true
+		if depth > 8 {
+			return false
+		}
+		if f.Object() != nil && f.Object().Exported() {
+			return false // callable from outside the module
+		}
+		sites := p.callSitesOf(f)
+		if len(sites) == 0 {
+			return false
+		}
+		for _, c := range sites {
+			if !up(c.Parent(), depth+1) {
+				return false
+			}
+		}
+		return true
+	}
+	return up(g, 0)
+}
